@@ -448,13 +448,99 @@ def gen_conditions(rng, mech, n_runs=None):
         fracs.append(d)
     if not any(fracs):
         fracs[0][chosen[0]] = 1.0
+    # species that are listed, but with a mole fraction of exactly 0 in every run where they appear
+    if len(chosen) >= 2 and rng.random() < 0.5:
+        for name in rng.sample(chosen, rng.choice([1, 1, 2]) if len(chosen) > 2 else 1):
+            for d in fracs:
+                if rng.random() < 0.7:
+                    d[name] = 0.0
+                else:
+                    d.pop(name, None)
+            rng.choice(fracs)[name] = 0.0
     return {'T': T, 'P': P, 'Q': Q, 'abyv': abyv, 'mole_fracs': fracs}
 
 
+def gen_history(rng, mech):
+    """Edits of the model between two writes of the SAME objects (parameter sweep / corrected
+    value): [{'op': 'site_density'|'density', 'site': k, 'value': v}, {'op': 'sticking'|'beta',
+    'rx': i, 'value': v}, {'op': 'poly', 'species': name, 'dH': K, 'dS': -, 'how': 'inplace'|'assign'}]"""
+    ops = []
+    used = sorted({s['site'] for s in mech['species'] if s['role'] in ('ads', 'vacant')})
+    if used and rng.random() < 0.85:
+        for k in rng.sample(used, rng.randint(1, len(used))):
+            old = mech['sites'][k]['site_density']
+            ops.append({'op': 'site_density', 'site': k,
+                        'value': SG.logu(rng, 1e-11, 1e-8, 6) if rng.random() < 0.6 else
+                        float('%.6g' % (old * rng.choice([0.1, 0.5, 2.0, 3.0])))})
+    if used and rng.random() < 0.4:
+        ops.append({'op': 'density', 'site': rng.choice(used), 'value': round(rng.uniform(1.0, 25.0), 2)})
+    ads = [i for i, r in enumerate(mech['reactions']) if r['is_adsorption']]
+    if ads and rng.random() < 0.6:
+        ops.append({'op': 'sticking', 'rx': rng.choice(ads), 'value': rng.choice([0.0, 1.0, round(rng.uniform(0, 1), 4)])})
+    if rng.random() < 0.6:
+        ops.append({'op': 'beta', 'rx': rng.randrange(len(mech['reactions'])), 'value': round(rng.uniform(-2, 3), 3)})
+    if rng.random() < 0.6:
+        for sp in rng.sample(mech['species'], min(len(mech['species']), rng.randint(1, 3))):
+            ops.append({'op': 'poly', 'species': sp['name'], 'dH': round(rng.uniform(-8e3, 8e3), 1),
+                        'dS': round(rng.uniform(-3, 3), 3), 'how': rng.choice(['inplace', 'assign'])})
+    rng.shuffle(ops)
+    return ops
+
+
+def apply_history_to_spec(mech, ops):
+    """-> edited deep copy of the mechanism spec (the model after the edits)"""
+    import copy
+    m = copy.deepcopy(mech)
+    by_name = {s['name']: s for s in m['species']}
+    for op in ops:
+        if op['op'] in ('site_density', 'density'):
+            m['sites'][op['site']][op['op']] = op['value']
+        elif op['op'] == 'sticking':
+            m['reactions'][op['rx']]['sticking_coeff'] = op['value']
+        elif op['op'] == 'beta':
+            m['reactions'][op['rx']]['beta'] = op['value']
+        elif op['op'] == 'poly':
+            s = by_name[op['species']]
+            for key in ('a_low', 'a_high'):
+                s[key] = list(s[key])
+                s[key][5] += op['dH']
+                s[key][6] += op['dS']
+    return m
+
+
+def apply_history_to_objects(mech, objs, ops):
+    """the same edits on the live pMuTT objects (attributes are public and documented)"""
+    import numpy as np
+    for op in ops:
+        if op['op'] in ('site_density', 'density'):
+            setattr(objs['sites'][op['site']], op['op'], op['value'])
+            for s in mech['species']:
+                if s.get('site') == op['site']:
+                    setattr(objs['species'][s['name']].cat_site, op['op'], op['value'])
+        elif op['op'] == 'sticking':
+            objs['reactions'][op['rx']].sticking_coeff = op['value']
+        elif op['op'] == 'beta':
+            objs['reactions'][op['rx']].beta = op['value']
+        elif op['op'] == 'poly':
+            sp = objs['species'][op['species']]
+            if op['how'] == 'inplace':
+                for a in (sp.a_low, sp.a_high):
+                    a[5] += op['dH']
+                    a[6] += op['dS']
+            else:
+                for key in ('a_low', 'a_high'):
+                    a = np.array(getattr(sp, key), dtype=float)
+                    a[5] += op['dH']
+                    a[6] += op['dS']
+                    setattr(sp, key, a)
+
+
 # ------------------------------------------------------------------------- factory
-def build_mechanism(mech, site_objs='shared'):
-    """-> dict(sites=[CatSite], species={name: Nasa}, reactions=[ChemkinReaction],
-    Reactions=Reactions, nasa_species=[non-TS Nasa in spec order])."""
+def build_mechanism(mech, site_objs='shared', reactions_arg='list'):
+    """-> dict(sites=[CatSite], species={name: Nasa}, reactions=[ChemkinReaction] (private copy),
+    Reactions=Reactions, nasa_species=[non-TS Nasa in spec order], caller_list=the list object that
+    was handed to Reactions (reactions_arg 'list'; 'tuple' / 'generator' hand over a tuple / a
+    one-shot generator instead)."""
     from pmutt.chemkin import CatSite
     from pmutt.reaction import ChemkinReaction, Reactions
 
@@ -495,5 +581,12 @@ def build_mechanism(mech, site_objs='shared'):
                                 transition_state_stoich=[cast(1)] if rx['ts'] else None, **kw)
         reactions.append(r)
     nasa_species = [species[sp['name']] for sp in mech['species'] if sp['role'] != 'ts']
-    return {'sites': shared, 'species': species, 'reactions': reactions,
-            'Reactions': Reactions(reactions=reactions), 'nasa_species': nasa_species}
+    caller_list = list(reactions)
+    if reactions_arg == 'generator':
+        container = Reactions(reactions=(r for r in caller_list))
+    elif reactions_arg == 'tuple':
+        container = Reactions(reactions=tuple(caller_list))
+    else:
+        container = Reactions(reactions=caller_list)
+    return {'sites': shared, 'species': species, 'reactions': reactions, 'caller_list': caller_list,
+            'Reactions': container, 'nasa_species': nasa_species}
